@@ -86,102 +86,115 @@ def check(an: Analysis) -> None:
             if not ok or ("exception" in cf.param_names() and not is_name(ev, "exception")):
                 ob1.fail(cf, c, f"ctx.{name} does not forward (message, *args, exception=exception)")
 
-    # ------------------------------------------------------------------ C19.3 which logger
-    ob = an.ob("C19.3", "K5", "logger = the given one, else (nested) the current scope's, else getLogger(<scope name>)", [f"{SM}.__init__", f"{MC}.scope"])
-    lv = prog.cls(SM).attr_val.get("_logger", [])
-    if len(lv) != 1:
-        raise AnalysisError("C19.3: expected one assignment of ScopeMetrics._logger")
-    ob.inst(init, lv[0])
+    # ------------------------------------------------------------------ C19.3 / C19.4 logger and trace id, end to end
+    # MetricsContext.scope -> ScopeMetrics(...) -> the stored _logger / trace_id are evaluated for every combination of
+    # {logger / trace id given or not} x {no scope current, a scope current (still open), a scope current (already completed)}
+    # wherever the inheritance is written (in scope(), in __init__, split between them).
+    ob3 = an.ob("C19.3", "K5 scenarios", "logger = the given one, else (a scope being current) the current scope's, else getLogger(<scope name>)", [f"{SM}.__init__", f"{MC}.scope"])
+    ob4 = an.ob("C19.4", "K5 scenarios", "trace id = the given one, else (a scope being current) the current scope's, else a fresh uuid4().hex; the identifier is always fresh", [f"{MC}.scope", f"{SM}.__init__"])
+    from ..kinds import Abs, Scenario
 
-    def ev_logger(given):
-        def env(e: ast.AST):
-            if is_name(e, "logger"):
-                return given
-            if isinstance(e, ast.Call) and an.callee(init, e) == "logging.getLogger":
-                a = e.args[0] if e.args else next((k.value for k in e.keywords if k.arg == "name"), None)
-                return ("named", ast.dump(a) if a is not None else None)
-            return NOVALUE
-
-        return eval_expr(lv[0], env)
-
-    if ev_logger("GIVEN") != "GIVEN":
-        ob.fail(init, lv[0], "a logger given to the scope is not the one used")
-    fb = ev_logger(None)
-    if not (isinstance(fb, tuple) and fb[0] == "named" and fb[1] == ast.dump(ast.Name(id="scope", ctx=ast.Load()))):
-        ob.fail(init, lv[0], "without a given logger the scope does not use getLogger(<scope name>)")
-    ds = Deps(prog, scope)
-    ctors = calls_to(an, scope, prog.cls(SM).qualname)
-    nested = [c for c in ctors if any(k.arg == "parent" and not (isinstance(k.value, ast.Constant) and k.value.value is None) for k in c.keywords)]
-    rootc = [c for c in ctors if c not in nested]
-    if len(nested) != 1 or len(rootc) != 1:
-        raise AnalysisError(f"C19.3: expected one nested and one root ScopeMetrics construction in MetricsContext.scope, found {len(nested)}/{len(rootc)}")
-    for c in ctors:
-        ob.inst(scope, c)
-    nl = next((k.value for k in nested[0].keywords if k.arg == "logger"), None)
-
-    def ev_nested(e, **vals):
-        def env(x: ast.AST):
-            if isinstance(x, ast.Name) and x.id in vals:
-                return vals[x.id]
-            if isinstance(x, ast.Attribute) and isinstance(x.value, ast.Name) and "call:contextvars.ContextVar.get" in ds.origins(x.value):
-                return ("current", x.attr)
-            return NOVALUE
-
-        return eval_expr(e, env) if e is not None else NOVALUE
-
-    if ev_nested(nl, logger="GIVEN") != "GIVEN":
-        ob.fail(scope, nested[0], "a logger given to a nested scope is not the one used")
-    if ev_nested(nl, logger=None) != ("current", "_logger"):
-        ob.fail(scope, nested[0], "a nested scope without own logger does not use the enclosing scope's logger")
-    rl = next((k.value for k in rootc[0].keywords if k.arg == "logger"), None)
-    if not is_name(rl, "logger"):
-        ob.fail(scope, rootc[0], "the outermost scope does not receive the given logger")
+    smc = prog.cls(SM)
+    lv = smc.attr_val.get("_logger", [])
+    tv = smc.attr_val.get("trace_id", [])
+    iv = smc.attr_val.get("identifier", [])
+    if len(lv) != 1 or len(tv) != 1 or len(iv) != 1:
+        raise AnalysisError("C19.3/4: expected one assignment each of ScopeMetrics._logger / trace_id / identifier")
+    ob3.inst(init, lv[0])
+    ob4.inst(init, tv[0], "trace_id")
+    ob4.inst(init, iv[0], "identifier")
     gsc = an.cfg(scope)
-    lookup_handlers = [n for n in gsc.nodes if n.kind == "handler" and set(gsc.handler_classes(n.ast)) <= {"LookupError"}]  # type: ignore[arg-type]
-    rn = [n for n in gsc.nodes if n.kind == "call" and n.ast is rootc[0]]
-    for n in rn:
-        w = gsc.ordered(lambda x: x in lookup_handlers, lambda x, n=n: x is n)
-        if w is not None:
-            ob.fail(scope, rootc[0], "a parent-less scope (fresh trace id, logger named after itself) can be built although a scope is current - e.g. when the enclosing scope has already completed: logger and trace id are then not inherited", CFG.show_path(w))
+    gin = an.cfg(init)
+    ds = Deps(prog, scope)
+    ctors = calls_to(an, scope, smc.qualname)
+    if not ctors:
+        raise AnalysisError("C19.3: MetricsContext.scope constructs no ScopeMetrics")
     for c in ctors:
+        ob3.inst(scope, c)
         nm = next((k.value for k in c.keywords if k.arg == "scope"), None)
         if not is_name(nm, scope.param_names()[1]):
-            ob.fail(scope, c, "the scope name is not passed on")
+            ob3.fail(scope, c, "the scope name is not passed on")
+    gets = [n for n in gsc.nodes if n.kind == "call" and an.callee(scope, n.ast) == "contextvars.ContextVar.get" and c02.contextvar_owner(an, scope, n.ast.func.value) == prog.cls(MC).qualname]  # type: ignore[union-attr]
+    if not gets:
+        ob3.missing(scope, None, "MetricsContext.scope never looks the current scope up: nothing can be inherited")
+    CUR = Abs("ScopeMetrics", "object", tag="current")
 
-    # ------------------------------------------------------------------ C19.4 trace id inheritance
-    ob = an.ob("C19.4", "K5", "nested scope: trace id = the given one, else the enclosing scope's; outermost: the given one, else fresh uuid4().hex; identifier always fresh", [f"{MC}.scope", f"{SM}.__init__"])
-    nt = next((k.value for k in nested[0].keywords if k.arg == "trace_id"), None)
-    ob.inst(scope, nested[0], "nested trace id")
-    if ev_nested(nt, trace_id="T1") != "T1":
-        ob.fail(scope, nested[0], "a trace id given to a nested scope is not used")
-    if ev_nested(nt, trace_id=None) != ("current", "trace_id"):
-        ob.fail(scope, nested[0], "a nested scope without own trace id does not inherit the enclosing scope's trace id (it gets a fresh one)")
-    rt = next((k.value for k in rootc[0].keywords if k.arg == "trace_id"), None)
-    if not is_name(rt, "trace_id"):
-        ob.fail(scope, rootc[0], "the outermost scope does not receive the given trace id")
-    tv = prog.cls(SM).attr_val.get("trace_id", [])
-    iv = prog.cls(SM).attr_val.get("identifier", [])
-    if len(tv) != 1 or len(iv) != 1:
-        raise AnalysisError("C19.4: expected one assignment each of ScopeMetrics.trace_id / identifier")
-    ob.inst(init, tv[0], "trace_id")
-    ob.inst(init, iv[0], "identifier")
+    def stmt_node(g_: CFG, value: ast.AST):
+        for n in g_.nodes:
+            if n.kind == "stmt" and n.ast is not None and any(x is value for x in ast.walk(n.ast)):
+                return n
+        raise AnalysisError("C19.3: assignment node not found")
 
-    def ev_tid(given):
-        def env(e: ast.AST):
-            if is_name(e, "trace_id"):
-                return given
-            if isinstance(e, ast.Attribute) and e.attr == "hex" and isinstance(e.value, ast.Call) and an.callee(init, e.value) == "uuid.uuid4":
-                return "FRESH"
+    n_logger, n_tid = stmt_node(gin, lv[0]), stmt_node(gin, tv[0])
+
+    def stage(g_: CFG, deps_: Deps, fi_: FunctionInfo, params: dict[str, object], has_current: bool, parent_done: bool | None) -> Scenario:
+        holder: list[Scenario] = []
+
+        def base(e: ast.AST) -> object:
+            ev = holder[0].env if holder else base
+            if isinstance(e, ast.Call):
+                cal = an.callee(fi_, e)
+                if cal == "contextvars.ContextVar.get":
+                    if has_current:
+                        return CUR
+                    return eval_expr(e.args[0], ev) if e.args else NOVALUE
+                if cal == "logging.getLogger":
+                    a = e.args[0] if e.args else next((k.value for k in e.keywords if k.arg == "name"), None)
+                    av = eval_expr(a, ev) if a is not None else None
+                    return ("named", av if av is not NOVALUE else ast.dump(a))
+                if isinstance(e.func, ast.Attribute) and e.func.attr == "done" and isinstance(e.func.value, ast.Attribute) and eval_expr(e.func.value.value, ev) is CUR:
+                    return parent_done if parent_done is not None else NOVALUE
+            if isinstance(e, ast.Attribute):
+                if e.attr == "hex" and isinstance(e.value, ast.Call) and an.callee(fi_, e.value) == "uuid.uuid4":
+                    return "FRESH"
+                recv = eval_expr(e.value, ev)
+                if recv is CUR:
+                    return _attr_of_current(prog, smc, CUR, e.attr)
+                if isinstance(recv, Abs) and recv.tag.startswith("another scope"):
+                    return (recv.tag, e.attr)
+                if isinstance(recv, tuple) and len(recv) == 2 and recv[0] == "current" and recv[1] == "_parent":
+                    return ("another scope (the current scope's parent)", e.attr)
+            if isinstance(e, ast.Compare) and len(e.ops) == 1 and isinstance(e.ops[0], (ast.Is, ast.IsNot)) and isinstance(e.comparators[0], ast.Constant) and e.comparators[0].value is None:
+                v = eval_expr(e.left, ev)
+                if v is not NOVALUE:
+                    return (v is None) == isinstance(e.ops[0], ast.Is)
             return NOVALUE
 
-        return eval_expr(tv[0], env)
+        def edge(a, b, lab):
+            if a in gets and not a.ast.args and not a.ast.keywords:  # type: ignore[union-attr]
+                return (lab in ("exc", "reraise")) if has_current else (lab not in ("exc",))
+            return False
 
-    if ev_tid("T1") != "T1":
-        ob.fail(init, tv[0], "a given trace id is replaced")
-    if ev_tid(None) != "FRESH":
-        ob.fail(init, tv[0], "an outermost scope without trace id does not get a fresh one")
+        sc = Scenario(g_, deps_, base, params=params, edge=edge if g_ is gsc else None, defer=True)
+        holder.append(sc)
+        return sc.solve()
+
+    NAME = ("the scope name",)
+    for given_logger in ("GIVEN", None):
+        for given_tid in ("T1", None):
+            for has_current, parent_done in ((False, None), (True, False), (True, True)):
+                situation = ("no scope current" if not has_current else f"a scope current ({'already completed' if parent_done else 'open'})") + f", logger {'given' if given_logger else 'not given'}, trace id {'given' if given_tid else 'not given'}"
+                sc1 = stage(gsc, ds, scope, {"trace_id": given_tid, "logger": given_logger, scope.param_names()[1]: NAME}, has_current, parent_done)
+                live = [n for n in gsc.nodes if n.kind == "call" and n.ast in ctors and n.id in sc1.reach]
+                if not live:
+                    ob3.fail(scope, ctors[0], f"no ScopeMetrics is built with {situation}")
+                    continue
+                for cn in live:
+                    kw = {k.arg: sc1.value_at(cn, k.value) for k in cn.ast.keywords if k.arg}  # type: ignore[union-attr]
+                    if any(kw.get(k, NOVALUE) is NOVALUE for k in ("trace_id", "logger", "parent", "scope")):
+                        raise AnalysisError(f"C19.3: cannot evaluate the ScopeMetrics(...) arguments at {scope.short}:{cn.line} with {situation}")
+                    sc2 = stage(gin, di, init, {"trace_id": kw["trace_id"], "logger": kw["logger"], "parent": kw["parent"], "scope": kw["scope"]}, has_current, parent_done)
+                    fl, ft = sc2.value_at(n_logger, lv[0]), sc2.value_at(n_tid, tv[0])
+                    if fl is NOVALUE or ft is NOVALUE:
+                        raise AnalysisError(f"C19.3: cannot evaluate the stored logger / trace id with {situation}")
+                    want_l = "GIVEN" if given_logger else (("current", "_logger") if has_current else ("named", NAME))
+                    want_t = "T1" if given_tid else (("current", "trace_id") if has_current else "FRESH")
+                    if fl != want_l:
+                        ob3.fail(scope if kw["logger"] != want_l and not (kw["logger"] is None) else init, cn.ast if kw["logger"] != want_l and kw["logger"] is not None else lv[0], f"with {situation} the scope logs through {_show(fl)} instead of {_show(want_l)}")
+                    if ft != want_t:
+                        ob4.fail(scope if kw["trace_id"] != want_t and not (kw["trace_id"] is None) else init, cn.ast if kw["trace_id"] != want_t and kw["trace_id"] is not None else tv[0], f"with {situation} the scope's trace id is {_show(ft)} instead of {_show(want_t)}")
     if not (isinstance(iv[0], ast.Attribute) and iv[0].attr == "hex" and isinstance(iv[0].value, ast.Call) and an.callee(init, iv[0].value) == "uuid.uuid4"):
-        ob.fail(init, iv[0], "the scope identifier is not a fresh uuid4().hex")
+        ob4.fail(init, iv[0], "the scope identifier is not a fresh uuid4().hex")
 
     # ------------------------------------------------------------------ C19.5 tag contents and emission
     ob = an.ob("C19.5", "K5", "the prefix carries trace id, identifier and (when non-empty) the scope name; ScopeMetrics.log emits `<prefix> <message>` through self._logger.log(level, ..., *args, exc_info=exception)", [f"{SM}.__init__", f"{SM}.log"])
@@ -321,3 +334,42 @@ def _tainted(d: Deps, e: ast.AST, args_name: str, sc, depth: int = 6) -> bool:
     if isinstance(e, (ast.JoinedStr, ast.BinOp, ast.FormattedValue, ast.Call, ast.BoolOp)):
         return any(_tainted(d, ch, args_name, sc, depth - 1) for ch in ast.iter_child_nodes(e) if isinstance(ch, ast.expr))
     return False
+
+
+def _show(v: object) -> str:
+    if v == "GIVEN":
+        return "the given logger"
+    if v == "T1":
+        return "the given trace id"
+    if v == "FRESH":
+        return "a fresh uuid4().hex"
+    if isinstance(v, tuple) and v and v[0] == "current":
+        return f"the current scope's {v[1]}"
+    if isinstance(v, tuple) and len(v) == 2 and isinstance(v[0], str) and v[0].startswith("another scope"):
+        return f"{v[1]} of {v[0]}"
+    if isinstance(v, tuple) and v and v[0] == "named":
+        return "getLogger(<scope name>)" if v[1] == ("the scope name",) else f"getLogger({v[1]})"
+    return repr(v)
+
+
+def _attr_of_current(prog, smc, cur, attr: str) -> object:
+    """Value of <current scope>.<attr>: a stored attribute, or a public property of ScopeMetrics that is a plain alias
+    of one; a property that walks `_parent` yields another scope."""
+    from ..kinds import Abs
+
+    for m in smc.methods.get(attr, []):
+        if "property" not in m.decorator_names():
+            continue
+        sn = prog.self_name(m)
+        me = sn[0] if sn else "self"
+        rets = [r for r in m.own_nodes() if isinstance(r, ast.Return)]
+        if len(rets) == 1 and len([x for x in m.node.body if not (isinstance(x, ast.Expr) and isinstance(x.value, ast.Constant))]) == 1:
+            v = unwrap(rets[0].value)
+            if isinstance(v, ast.Attribute) and is_name(v.value, me):
+                return _attr_of_current(prog, smc, cur, v.attr)
+            if is_name(v, me):
+                return cur
+        if any(isinstance(x, ast.Attribute) and x.attr == "_parent" for x in m.own_nodes()):
+            return Abs("ScopeMetrics", "object", tag=f"another scope (reached through _parent by the `{attr}` property)")
+        return NOVALUE
+    return ("current", attr)
